@@ -67,9 +67,9 @@ func leafVals(k Kind, thorough bool) []any {
 	case KStr:
 		return []any{"", "a", "Test User 1", "a*b", "x@y.z", "é", "12 3", "a&b"}
 	case KBytes:
-		v := []any{[]byte{}, []byte{0}, []byte{1, 2, 3}, rep7(127), rep7(128)}
+		v := []any{[]byte{}, []byte{0}, []byte{1, 2, 3}, rep7(127), rep7(128), rep7(255), rep7(256)}
 		if thorough {
-			v = append(v, rep7(256))
+			v = append(v, rep7(65536))
 		}
 		return v
 	case KTime:
@@ -142,6 +142,25 @@ func valsOf(s *Shape, thorough bool, depth int) []any {
 			total *= limit
 		}
 		var out []any
+		if total > 48 {
+			// too many: vary one field at a time around the first values, plus the diagonals
+			base := func(k int) []any {
+				l := make([]any, len(per))
+				for i := range per {
+					l[i] = per[i][k%len(per[i])]
+				}
+				return l
+			}
+			out = append(out, base(0), base(1), base(2))
+			for i := range per {
+				for _, v := range per[i][1:] {
+					l := base(0)
+					l[i] = v
+					out = append(out, l)
+				}
+			}
+			return out
+		}
 		idx := make([]int, len(per))
 		for c := 0; c < total; c++ {
 			l := make([]any, len(per))
@@ -591,7 +610,7 @@ func sanitizeErr(e error) string {
 	}
 	out := sb.String()
 	// drop the fork's "<Field>: " diagnostic prefix and the verbose tag dump
-	for _, pre := range []string{"asn1: structure error: ", "asn1: syntax error: "} {
+	for _, pre := range []string{"asn#: structure error: ", "asn#: syntax error: "} {
 		if strings.HasPrefix(out, pre) {
 			rest := out[len(pre):]
 			if i := strings.Index(rest, ": "); i > 0 && i <= 12 && !strings.Contains(rest[:i], " ") {
